@@ -138,6 +138,9 @@ func (db *DB) newMemTable() (*memTable, error) {
 	mt, err := db.openMemTable(db.nextMemFid, os.O_CREATE|os.O_RDWR)
 	if err == z.NewFile {
 		db.nextMemFid++
+		if serr := db.syncDir(db.opt.Dir); serr != nil {
+			return nil, y.Wrapf(serr, "newMemTable: syncing directory")
+		}
 		return mt, nil
 	}
 
